@@ -259,6 +259,20 @@ def Scal.IsInterp (s : Scal) : Prop :=
 /-- well-formed scalar of fragment 3: an ordinary scalar, a variable or an interpolated expression. -/
 def Scal.ValidX (s : Scal) : Prop := s.Valid ∨ s.IsVar ∨ s.IsInterp
 
+/-- a run of scalars with their blanks (the array part of a mixed container). -/
+def renderElems : List (Bytes × Scal) → Bytes
+  | [] => []
+  | (g, s) :: r => g ++ (s.text ++ renderElems r)
+
+def ElemsValid : List (Bytes × Scal) → Bytes → Prop
+  | [], _ => True
+  | (g, s) :: r, after =>
+    Blank g ∧ s.ValidX ∧ (s.quoted = false → StartsBoundary (renderElems r ++ after)) ∧ ElemsValid r after
+
+def elemToks : List (Bytes × Scal) → Bytes → List Tok
+  | [], _ => []
+  | (_, s) :: r, after => s.tok (renderElems r ++ after) :: elemToks r after
+
 end Jomini.TextTape
 
 /-! ### abstract documents, fragment 3: objects, arrays (of scalars, objects, arrays) and empty
@@ -278,6 +292,10 @@ inductive JVal
   /-- `g { b1 { b2 } …inside of v… `: a ghost `{}` at the very start of the (braced) value `v`; the
   parser drops it, the kind of the container not being known yet -/
   | ghostIn (g b1 b2 : Bytes) (v : JVal)
+  /-- object→array mixed container `{ key op v fields… m0 elems… }`: an object that continues as a
+  bare list of scalars (the first of them, `m0`, is what the parser first takes for a key) -/
+  | mixed (g g0 : Bytes) (key : Scal) (g1 : Bytes) (op : Op) (v : JVal) (rest : JFields)
+      (gm : Bytes) (m0 : Scal) (elems : List (Bytes × Scal)) (gc : Bytes)
 inductive JFields
   | nil
   | cons (g0 : Bytes) (key : Scal) (g1 : Bytes) (op : Op) (v : JVal) (rest : JFields)
@@ -303,6 +321,9 @@ def jrenderV : JVal → Bytes
   | .arrS g g0 s0 rest gc => g ++ 123 :: (g0 ++ (s0.text ++ (jrenderVs rest ++ (gc ++ [125]))))
   | .arrC g first rest gc => g ++ 123 :: (jrenderV first ++ (jrenderVs rest ++ (gc ++ [125])))
   | .ghostIn g b1 b2 v => g ++ 123 :: (b1 ++ 123 :: (b2 ++ 125 :: jinner v))
+  | .mixed g g0 k g1 o v rest gm m0 elems gc =>
+    g ++ 123 :: (g0 ++ (k.text ++ (g1 ++ (o.text ++ (jrenderV v ++ (jrenderF rest ++
+      (gm ++ (m0.text ++ (renderElems elems ++ (gc ++ [125])))))))))) 
 /-- what stands behind the opening `{` of a braced value. -/
 def jinner : JVal → Bytes
   | .scal _ _ => []
@@ -312,6 +333,9 @@ def jinner : JVal → Bytes
   | .arrS _ g0 s0 rest gc => g0 ++ (s0.text ++ (jrenderVs rest ++ (gc ++ [125])))
   | .arrC _ first rest gc => jrenderV first ++ (jrenderVs rest ++ (gc ++ [125]))
   | .ghostIn _ b1 b2 v => b1 ++ 123 :: (b2 ++ 125 :: jinner v)
+  | .mixed _ g0 k g1 o v rest gm m0 elems gc =>
+    g0 ++ (k.text ++ (g1 ++ (o.text ++ (jrenderV v ++ (jrenderF rest ++
+      (gm ++ (m0.text ++ (renderElems elems ++ (gc ++ [125])))))))))
 def jrenderF : JFields → Bytes
   | .nil => []
   | .cons g0 k g1 o v rest => g0 ++ (k.text ++ (g1 ++ (o.text ++ (jrenderV v ++ jrenderF rest))))
@@ -332,12 +356,12 @@ def JVal.isBraced : JVal → Prop
 /-- a non-empty container (what may stand first in an `arrC`; a leading `{}` would be dropped by
 the parser as a ghost object, the kind of the container not being known yet). -/
 def JVal.isContainer : JVal → Prop
-  | .obj .. | .arrS .. | .arrC .. | .ghostIn .. => True
+  | .obj .. | .arrS .. | .arrC .. | .ghostIn .. | .mixed .. => True
   | _ => False
 
 /-- the blanks in front of a value. -/
 def JVal.gap : JVal → Bytes
-  | .scal g _ | .empty g _ | .obj g .. | .arrS g .. | .arrC g .. | .ghostIn g .. => g
+  | .scal g _ | .empty g _ | .obj g .. | .arrS g .. | .arrC g .. | .ghostIn g .. | .mixed g .. => g
 
 mutual
 /-- layout validity of a value followed by `after`. -/
@@ -360,6 +384,15 @@ def JValidV : JVal → Bytes → Prop
   | .ghostIn g b1 b2 v, after =>
     -- (the blanks `v` carries in front of its own `{` are not rendered: they must be empty)
     Blank g ∧ Blank b1 ∧ Blank b2 ∧ v.isBraced ∧ v.gap = [] ∧ JValidV v after
+  | .mixed g g0 k g1 o v rest gm m0 elems gc, after =>
+    let E := renderElems elems ++ (gc ++ 125 :: after)
+    Blank g ∧ Blank g0 ∧ Blank g1 ∧ Blank gm ∧ Blank gc ∧ k.ValidX ∧
+    (k.quoted = false → StartsBoundary (g1 ++ o.text)) ∧
+    JValidV v (jrenderF rest ++ (gm ++ (m0.text ++ E))) ∧ JValidF rest (gm ++ (m0.text ++ E)) ∧
+    m0.ValidX ∧ (m0.quoted = false → StartsBoundary E) ∧
+    -- what follows `m0` is neither an operator nor a `{` (else `m0` would be a key)
+    (∀ d2, skipWs E = some d2 → lexOperator true d2 = none ∧ d2.head? ≠ some 123) ∧
+    ElemsValid elems (gc ++ 125 :: after)
 def JValidF : JFields → Bytes → Prop
   | .nil, _ => True
   | .cons g0 k g1 o v rest, after =>
@@ -387,6 +420,7 @@ def jcntV : JVal → Nat
   | .arrS _ _ _ rest _ => 2 + 1 + jcntVs rest
   | .arrC _ first rest _ => 2 + jcntV first + jcntVs rest
   | .ghostIn _ _ _ v => jcntV v
+  | .mixed _ _ _ _ o v rest _ _ elems _ => 2 + (1 + o.toks.length + jcntV v) + jcntF rest + 2 + elems.length
 def jcntF : JFields → Nat
   | .nil => 0
   | .cons _ _ _ o v rest => (1 + o.toks.length + jcntV v) + jcntF rest
@@ -421,6 +455,15 @@ def jtapeV : JVal → Nat → Bytes → List Tok
         jtapeVs rest (base + 1 + jcntV first) (gc ++ 125 :: after)) ++
       [.endTok base]
   | .ghostIn _ _ _ v, base, after => jtapeV v base after
+  | .mixed _ _ k g1 o v rest gm m0 elems gc, base, after =>
+    let E := renderElems elems ++ (gc ++ 125 :: after)
+    let tail := jrenderF rest ++ (gm ++ (m0.text ++ E))
+    [.object (base + 1 + (1 + o.toks.length + jcntV v) + jcntF rest + 2 + elems.length) true] ++
+      ([k.tok (g1 ++ (o.text ++ (jrenderV v ++ tail)))] ++ o.toks ++
+        jtapeV v (base + 1 + 1 + o.toks.length) tail ++
+        jtapeF rest (base + 1 + (1 + o.toks.length + jcntV v)) (gm ++ (m0.text ++ E)) ++
+        [.mixedContainer, m0.tok E] ++ elemToks elems (gc ++ 125 :: after)) ++
+      [.endTok base]
 def jtapeF : JFields → Nat → Bytes → List Tok
   | .nil, _, _ => []
   | .cons _ k g1 o v rest, base, after =>
@@ -452,6 +495,7 @@ def jstepsV : JVal → Nat
   | .arrS _ _ _ rest _ => 2 + jstepsVs rest + 1
   | .arrC _ first rest _ => 2 + jstepsV first + jstepsVs rest + 1
   | .ghostIn _ _ _ v => 1 + jstepsV v
+  | .mixed _ _ _ _ _ v rest _ _ elems _ => 3 + jstepsV v + jstepsF rest + 2 + elems.length + 1
 def jstepsF : JFields → Nat
   | .nil => 0
   | .cons _ _ _ _ v rest => 2 + jstepsV v + jstepsF rest
@@ -477,6 +521,8 @@ inductive KVal
   | arr (vs : KVals)
   /-- a container with a header (`rgb { … }`) -/
   | hdr (h : Bytes) (body : KVal)
+  /-- object→array mixed container: fields, then bare scalars -/
+  | mixed (fs : KFields) (vs : List Scal)
 inductive KFields
   | nil
   | cons (key : Scal) (op : Op) (v : KVal) (rest : KFields)
@@ -493,6 +539,8 @@ def kcontentV : JVal → KVal
   | .arrS _ _ s0 rest _ => .arr (.cons (.scal s0) (kcontentVs rest))
   | .arrC _ first rest _ => .arr (.cons (kcontentV first) (kcontentVs rest))
   | .ghostIn _ _ _ v => kcontentV v
+  | .mixed _ _ k _ o v rest _ m0 elems _ =>
+    .mixed (.cons k o (kcontentV v) (kcontentF rest)) (m0 :: elems.map (·.2))
 def kcontentF : JFields → KFields
   | .nil => .nil
   | .cons _ k _ o v rest => .cons k o (kcontentV v) (kcontentF rest)
@@ -511,6 +559,7 @@ def kcntV : KVal → Nat
   | .obj fs => 2 + kcntF fs
   | .arr vs => 2 + kcntVs vs
   | .hdr _ body => 1 + kcntV body
+  | .mixed fs vs => 2 + kcntF fs + 1 + vs.length
 def kcntF : KFields → Nat
   | .nil => 0
   | .cons _ o v rest => (1 + o.toks.length + kcntV v) + kcntF rest
@@ -528,6 +577,9 @@ def ktapeV : KVal → Nat → List Tok
   | .obj fs, base => [.object (base + 1 + kcntF fs) false] ++ ktapeF fs (base + 1) ++ [.endTok base]
   | .arr vs, base => [.array (base + 1 + kcntVs vs) false] ++ ktapeVs vs (base + 1) ++ [.endTok base]
   | .hdr h body, base => [.header ⟨0, h⟩] ++ ktapeV body (base + 1)
+  | .mixed fs vs, base =>
+    [.object (base + 1 + kcntF fs + 1 + vs.length) true] ++ ktapeF fs (base + 1) ++
+      [.mixedContainer] ++ vs.map (fun s => (s.tok []).erase) ++ [.endTok base]
 def ktapeF : KFields → Nat → List Tok
   | .nil, _ => []
   | .cons k o v rest, base =>
